@@ -170,6 +170,44 @@ mod display_side {
     }
 }
 
+/// a serde map stream with a caller-chosen `size_hint` (what a length-prefixed binary format hands over)
+mod hinted {
+    use serde::de::{self, value::Error, DeserializeSeed, IntoDeserializer, MapAccess, Visitor};
+    pub struct Stream {
+        pub items: Vec<(String, i64)>,
+        pub pos: usize,
+        pub hint: Option<usize>,
+    }
+    impl<'de> MapAccess<'de> for Stream {
+        type Error = Error;
+        fn next_key_seed<K: DeserializeSeed<'de>>(&mut self, seed: K) -> Result<Option<K::Value>, Error> {
+            match self.items.get(self.pos) {
+                Some((k, _)) => seed.deserialize(k.clone().into_deserializer()).map(Some),
+                None => Ok(None),
+            }
+        }
+        fn next_value_seed<V: DeserializeSeed<'de>>(&mut self, seed: V) -> Result<V::Value, Error> {
+            let v = self.items[self.pos].1;
+            self.pos += 1;
+            seed.deserialize(v.into_deserializer())
+        }
+        fn size_hint(&self) -> Option<usize> {
+            self.hint
+        }
+    }
+    pub struct De(pub Stream);
+    impl<'de> de::Deserializer<'de> for De {
+        type Error = Error;
+        fn deserialize_any<V: Visitor<'de>>(self, visitor: V) -> Result<V::Value, Error> {
+            visitor.visit_map(self.0)
+        }
+        serde::forward_to_deserialize_any! {
+            bool i8 i16 i32 i64 i128 u8 u16 u32 u64 u128 f32 f64 char str string bytes byte_buf option unit unit_struct
+            newtype_struct seq tuple tuple_struct map struct enum identifier ignored_any
+        }
+    }
+}
+
 fn main() {
     std::panic::set_hook(Box::new(|_| {}));
     let stdin = io::stdin();
@@ -226,6 +264,22 @@ fn main() {
                     }
                     let eq = t == t2 && toml::Value::Table(t.clone()) == toml::Value::Table(t2);
                     format!("map rets={} iter={}{}", rets.join(","), it.join(","), if eq { "" } else { " EQ-DEPENDS-ON-ORDER" })
+                }
+                "hint" => {
+                    // `hint <none|max|N> k v k v …`: toml::Table::deserialize from a serde stream with that size hint
+                    let hint = match p[1] {
+                        "none" => None,
+                        "max" => Some(usize::MAX),
+                        n => Some(n.parse().unwrap()),
+                    };
+                    let items: Vec<(String, i64)> = p[2..].chunks(2).map(|c| (c[0].to_string(), c[1].parse().unwrap())).collect();
+                    match <toml::Table as serde::Deserialize>::deserialize(hinted::De(hinted::Stream { items, pos: 0, hint })) {
+                        Ok(t) => {
+                            let it: Vec<String> = t.iter().map(|(k, v)| format!("{k}={}", v.as_integer().unwrap_or(-1))).collect();
+                            format!("hint ok iter={}", it.join(","))
+                        }
+                        Err(_) => "hint err".to_string(),
+                    }
                 }
                 "build" => {
                     #[cfg(feature = "display")]
